@@ -60,21 +60,26 @@ func newHelper() *helper {
 
 // call runs f on the helper.  ok=false: the helper is parked inside the call (a fact read from the
 // runtime's goroutine states, the timer only decides when to look).
-func (h *helper) call(f func() tr.E) (tr.E, bool) {
+// call runs f on the helper and watches it.  "" = returned; "blocked": the runtime reports the
+// helper parked inside the call (a fact read from the goroutine states, the timer only decides when
+// to look); "hang": it has neither returned nor parked for a minute - it is running inside the call.
+// Both are observations about the code under test, logged as replies no action of the spec has.
+func (h *helper) call(f func() tr.E) (tr.E, string) {
 	h.cmd <- f
 	t := time.NewTimer(300 * time.Millisecond)
 	defer t.Stop()
 	parkedSeen := 0
-	for i := 0; i < 200; i++ {
+	for i := 0; i < 600; i++ {
 		select {
 		case r := <-h.res:
-			return r, true
+			return r, ""
 		case <-t.C:
 			st := qx.Goroutines()[h.gid]
-			if st == "sync.Cond.Wait" || st == "chan receive" || st == "select" || st == "sync.Mutex.Lock" {
+			if st == "sync.Cond.Wait" || st == "chan receive" || st == "select" || st == "sync.Mutex.Lock" ||
+				st == "chan send" || st == "semacquire" || st == "sleep" {
 				parkedSeen++
-				if parkedSeen >= 2 {
-					return nil, false
+				if parkedSeen >= 2 && st != "sleep" || parkedSeen >= 20 {
+					return nil, "blocked"
 				}
 			} else {
 				parkedSeen = 0
@@ -82,8 +87,7 @@ func (h *helper) call(f func() tr.E) (tr.E, bool) {
 			t.Reset(100 * time.Millisecond)
 		}
 	}
-	tr.Fatal("helper call neither returned nor parked")
-	return nil, false
+	return nil, "hang"
 }
 
 func (h *helper) stop() { close(h.cmd) }
@@ -96,39 +100,59 @@ type runner struct {
 	h    *helper
 	m    qa.Model // the harness's own count model of the property: decides what is issued
 	dead bool     // a call blocked: the trace is over
+	// retained results: in a "late" history every item a call handed out is kept AS RETURNED and
+	// decoded into the trace only when the history is over (it must still be what it was); the
+	// events of such a history are written at its end.  The other histories are written at once.
+	late    bool
+	buf     []tr.E
+	kept    map[int]interface{}
+	got     interface{}
+	haveGot bool
+}
+
+func (r *runner) emit(e tr.E) {
+	if !r.late {
+		r.w.Emit(e)
+		return
+	}
+	if r.haveGot {
+		r.kept[len(r.buf)] = r.got
+	}
+	r.buf = append(r.buf, e)
+}
+
+// finish renders the kept items and writes a late history.
+func (r *runner) finish() {
+	for i, e := range r.buf {
+		if x, ok := r.kept[i]; ok {
+			e["r"] = qa.ItemReply(x)
+		}
+		r.w.Emit(e)
+	}
+	r.buf = nil
 }
 
 func (r *runner) step(a qa.Act) {
 	if r.dead || !qa.Supports(r.kind, a) {
 		return
 	}
-	if r.kind == "priq" {
-		rep := qa.Safe(r.q, a)
-		r.w.Emit(tr.E{"ev": "call", "a": a.Rec(), "r": rep, "obs": r.q.Obs()})
-		r.m.Apply(a)
+	if !r.m.Returns(a) {
+		return // would block by the property: not part of the sequential exploration
+	}
+	if r.h == nil {
+		r.h = newHelper()
+	}
+	r.haveGot = false
+	q := r.q
+	rep, bad := r.h.call(func() tr.E { return qa.Safe(q, a) }) // every call is watched, not only Pops
+	if bad != "" {
+		r.haveGot = false
+		r.emit(tr.E{"ev": "call", "a": a.Rec(), "r": qa.Rp(bad, 0), "obs": tr.E{"k": 0}})
+		r.dead = true
+		r.h = nil // the goroutine stays behind in the abandoned queue
 		return
 	}
-	var rep tr.E
-	if a.Op == "pop" {
-		if !r.m.PopReturns() {
-			return // would block by the property: not part of the sequential exploration
-		}
-		if r.h == nil {
-			r.h = newHelper()
-		}
-		var ok bool
-		q := r.q
-		rep, ok = r.h.call(func() tr.E { return qa.Safe(q, a) })
-		if !ok {
-			r.w.Emit(tr.E{"ev": "call", "a": a.Rec(), "r": qa.Rp("blocked", 0), "obs": tr.E{"k": 0}})
-			r.dead = true
-			r.h = nil // the goroutine stays parked in the abandoned queue
-			return
-		}
-	} else {
-		rep = qa.Safe(r.q, a)
-	}
-	r.w.Emit(tr.E{"ev": "call", "a": a.Rec(), "r": rep, "obs": r.q.Obs()})
+	r.emit(tr.E{"ev": "call", "a": a.Rec(), "r": rep, "obs": r.q.Obs()})
 	r.m.Apply(a)
 }
 
@@ -139,6 +163,10 @@ func (r *runner) drain(rng *rand.Rand) {
 			r.step(qa.Act{Op: "pop"})
 		}
 		r.step(qa.Act{Op: "len"})
+		if r.h != nil {
+			r.h.stop()
+			r.h = nil
+		}
 		return
 	}
 	if !r.m.Closed {
@@ -157,9 +185,13 @@ func (r *runner) drain(rng *rand.Rand) {
 			r.step(qa.Act{Op: "pop", Any: true})
 		}
 	}
+	// the waiters' view of the life cycle (unsupported calls are skipped per kind)
+	r.step(qa.Act{Op: "waitclose", Bg: true})
+	r.step(qa.Act{Op: "waitclear", Bg: rng.Intn(2) == 0})
 	if r.kind == "mq" {
 		r.step(qa.Act{Op: "tryclear"})
 		r.step(qa.Act{Op: "iscleared"})
+		r.step(qa.Act{Op: "waitclear", Bg: true})
 	}
 	if r.h != nil {
 		r.h.stop()
@@ -210,8 +242,11 @@ func prioPool(rng *rand.Rand, n int) []int {
 }
 
 func runTrace(w *tr.W, rng *rand.Rand, src, kind string, ccap, rcap, rep int, plan []qa.Act) {
-	r := &runner{w: w, kind: kind, m: qa.Model{Kind: kind, Ccap: ccap, Rcap: rcap}}
-	reset := tr.E{"ev": "reset", "kind": kind, "ccap": ccap, "rcap": rcap, "src": src, "rep": rep}
+	r := &runner{w: w, kind: kind, m: qa.Model{Kind: kind, Ccap: ccap, Rcap: rcap},
+		late: rng.Intn(2) == 0, kept: map[int]interface{}{}}
+	// capacities beyond what TLC's integers hold are logged clamped (they are never reached)
+	reset := tr.E{"ev": "reset", "kind": kind, "ccap": qa.Clamp(ccap), "rcap": qa.Clamp(rcap), "src": src,
+		"rep": rep, "late": r.late}
 	if kind == "priq" {
 		nr := 1
 		for _, a := range plan {
@@ -232,11 +267,13 @@ func runTrace(w *tr.W, rng *rand.Rand, src, kind string, ccap, rcap, rep int, pl
 	} else {
 		r.q = qa.New(kind, ccap, rcap, rep)
 	}
+	r.q.(qa.Keeper).SetKeep(func(x interface{}) { r.got, r.haveGot = x, true })
 	w.Emit(reset)
 	for _, a := range plan {
 		r.step(a)
 	}
 	r.drain(rng)
+	r.finish()
 }
 
 func readPlan(path string) []qa.Act {
@@ -283,7 +320,11 @@ func randHistory(rng *rand.Rand, kind string, n int) []qa.Act {
 			if kind == "mq" && rng.Intn(5) < 2 {
 				lane = "ctrl"
 			}
-			out = append(out, qa.Act{Op: "add", Lane: lane, Prior: kind != "syncq" && rng.Intn(4) == 0, V: id})
+			if kind != "syncq" && rng.Intn(6) == 0 {
+				out = append(out, qa.Act{Op: "addw", Lane: lane, V: id}) // AddAnyway (skipped while the lane is full)
+			} else {
+				out = append(out, qa.Act{Op: "add", Lane: lane, Prior: kind != "syncq" && rng.Intn(4) == 0, V: id})
+			}
 		case x < pAdd+30:
 			if kind == "syncq" {
 				if rng.Intn(2) == 0 {
@@ -299,7 +340,8 @@ func randHistory(rng *rand.Rand, kind string, n int) []qa.Act {
 		case x < pAdd+40:
 			out = append(out, qa.Act{Op: "tryclear"})
 		default:
-			out = append(out, qa.Act{Op: []string{"isclosed", "iscleared", "len", "trypop"}[rng.Intn(4)]})
+			op := []string{"isclosed", "iscleared", "len", "trypop", "size", "waitclose", "waitclear"}[rng.Intn(7)]
+			out = append(out, qa.Act{Op: op, Bg: rng.Intn(2) == 0}) // a live-context wait is skipped while it would block
 		}
 	}
 	return out
@@ -346,11 +388,21 @@ func main() {
 			if len(p) == 0 || p[0].Op != "init" {
 				tr.Fatal("plan %s does not start with init", f)
 			}
-			runTrace(w, rng, "plan:"+filepath.Base(f), p[0].Kind, p[0].Ccap, p[0].Rcap, i%4, p[1:])
+			// "unbounded" (0 in the plan) is configured in every way the options accept it: 0, a
+			// negative size, and the top of the integer range (never reached)
+			unb := []int{0, -1, math.MaxInt, 0, math.MinInt, math.MaxInt - 1}
+			cc, rc := p[0].Ccap, p[0].Rcap
+			if rc == 0 && p[0].Kind != "syncq" {
+				rc = unb[i%len(unb)]
+			}
+			if cc == 0 && p[0].Kind == "mq" {
+				cc = unb[(i/2)%len(unb)]
+			}
+			runTrace(w, rng, "plan:"+filepath.Base(f), p[0].Kind, cc, rc, i%4, p[1:])
 		}
 	}
 	kinds := []string{"q", "async", "mux", "mq", "syncq"}
-	caps := []int{0, 1, 2, 3, 0, 1, 2, 5}
+	caps := []int{0, 1, 2, 3, 0, 1, 2, 5, -1, math.MaxInt, 1, math.MinInt}
 	for i := 0; i < *nhist; i++ {
 		kind := kinds[i%len(kinds)]
 		if i%7 == 6 {
@@ -380,7 +432,9 @@ func main() {
 			runTrace(pw, rng, "plan:"+filepath.Base(f), "priq", 0, p[0].Rcap, 0, p[1:])
 		}
 	}
-	pcaps := []int{1, 2, 3, 4, 7, 16, 1000}
+	// priq has no unbounded mode: Push is refused iff len >= capacity, so 0 and negative capacities
+	// refuse everything and MaxInt never refuses
+	pcaps := []int{1, 2, 3, 4, 7, 16, 1000, 0, -1, math.MaxInt, 1, 2, math.MinInt}
 	for i := 0; i < *nphist; i++ {
 		n := 12 + rng.Intn(*maxops-11)
 		runTrace(pw, rng, "rand", "priq", 0, pcaps[rng.Intn(len(pcaps))], 0, randPriHistory(rng, n))
